@@ -39,11 +39,12 @@ def c07_jobs(ctx, focus=()):
     r = ctx.rng
     jobs = []
     for nm in search.all_names():
-        for rep in range((1 if ctx.quick else 10) * ctx.boost + (12 if nm in focus else 0)):
+        for rep in range((1 if ctx.quick else 10) * ctx.boost + (24 if nm in focus else 0)):
             seed = r.choice([42, 0, 1, 7, 123456, 2**31 - 1, r.randint(0, 10**6)])
-            objs = ["sphere", "rastrigin", "step", "const"] if nm not in focus else ["const", "step", "step", "terraces", "sphere", "zero", "deadzone", "violation"]    # const / zero: every cost tied
-            t = search.cont_task(obj=r.choice(objs), minmax=r.choice(["min", "max"]), seed=seed, dim=r.choice([2, 3]), **({"lo": -5.12, "hi": 5.12} if nm in focus and r.random() < 0.5 else {}))
-            cfg = {"max_cycles": r.choice([2, 4] if nm not in focus else [4, 12, 40]), "fitness_error": None}
+            objs = ["sphere", "rastrigin", "step", "const"] if nm not in focus else ["step", "step", "step", "terraces", "terraces", "const", "sphere", "zero", "deadzone", "violation"]    # plateaus: the whole population ties, then moves on
+            t = search.cont_task(obj=r.choice(objs), minmax=r.choice(["min", "max"]), seed=seed, dim=r.choice([2, 3]), **({"lo": -5.12, "hi": 5.12} if nm in focus and r.random() < 0.8 else {}))
+            cfg = {"max_cycles": r.choice([2, 4] if nm not in focus else [12, 40]), "fitness_error": None}
+            if nm in focus and r.random() < 0.5: cfg["population_size"] = max(4, search.fixture_scale(nm)["population_size"] // 2)
             jobs.append(({"opt": nm, "cfg": cfg, "task": t}, {"opt": nm, "cfg": cfg, "task": t, "pre_draws": r.randint(1, 50)}))
     # the same seeded call twice on ONE instance reproduces itself (buffers kept across runs must not replace the seeded draws)
     for nm in (search.all_names() if not ctx.quick else r.sample(search.all_names(), 30) + [n for n in focus]):
